@@ -9,6 +9,7 @@
 #include <vector>
 #include <set>
 #include <map>
+#include <memory>
 
 #include <boost/graph/graph_traits.hpp>
 #include <boost/graph/graph_concepts.hpp>
@@ -149,11 +150,16 @@ namespace parmcb {
     }
 
 #ifdef PARMCB_HAVE_TBB
-    void set_global_tbb_concurrency(const std::size_t hardware_concurrency_hint) {
+    // The limit stays in force after the call returns, until the next call replaces it.
+    inline void set_global_tbb_concurrency(const std::size_t hardware_concurrency_hint) {
 #if TBB_VERSION_MAJOR > 2020
-    	oneapi::tbb::global_control global_limit(oneapi::tbb::global_control::max_allowed_parallelism, hardware_concurrency_hint);
+        static std::unique_ptr<oneapi::tbb::global_control> global_limit;
+        global_limit.reset(); // release the previous limit first, otherwise the smaller of the two would win
+        global_limit.reset(new oneapi::tbb::global_control(oneapi::tbb::global_control::max_allowed_parallelism, hardware_concurrency_hint));
 #else
-    	tbb::task_scheduler_init init(hardware_concurrency_hint);
+        static std::unique_ptr<tbb::task_scheduler_init> init;
+        init.reset();
+        init.reset(new tbb::task_scheduler_init(hardware_concurrency_hint));
 #endif
     }
 #endif
